@@ -241,12 +241,13 @@ class Slicer:
     captures to the enclosing body).  Atoms: 'field:Owner::name', 'call:<callee>', 'const:<text>', 'arg:<n>:<name>',
     'binop:<op>'."""
 
-    def __init__(self, world, stop_calls=None, through_calls=True, into_callees=0):
+    def __init__(self, world, stop_calls=None, through_calls=True, into_callees=0, control=False):
         self.w = world
         self.stop_calls = stop_calls
         self.through_calls = through_calls
         self.into_callees = into_callees   # inlining depth for return-value provenance of in-repo callees
-        self._depth = 0
+        self.control = control             # also slice the tests that choose between the definitions of a multiply-assigned local
+        self._depth = 0                    # (`let f = a && b` lowers to `f = if a { b } else { false }`: f depends on a by control only)
 
     def atoms(self, body, op, seen=None, out=None):
         if out is None:
@@ -335,7 +336,12 @@ class Slicer:
             out.add(f"arg:{l}:{body.local_name(l) or ''}@{body.id}")
             if body.kind == "Closure" and l == 1:
                 return
-        for bb, idx, s in body.defs().get(l, []):
+        ds = body.defs().get(l, [])
+        if self.control and len([d for d in ds if d[1] == "term" or "*" not in (d[2]["p"].get("p") or ())]) > 1:
+            for bb, idx, s in ds:
+                for sbb in control_switches(body, bb):
+                    self.atoms(body, body.term(sbb)["d"], seen, out)
+        for bb, idx, s in ds:
             if idx != "term" and "*" in (s["p"].get("p") or ()):
                 continue   # a store through a reference held in l is not a definition of l (field atoms stand for it)
             if idx == "term":
@@ -370,6 +376,18 @@ class Slicer:
             elif k == "agg":
                 for o in r["ops"]:
                     self.atoms(body, o, seen, out)
+
+
+def control_switches(body, bb):
+    """switch blocks one of whose edges dominates bb (bb runs only on that outcome of the test)"""
+    key = (id(body), bb)
+    if key not in _CTL_MEMO:
+        _CTL_MEMO[key] = [sbb for sbb, t in switch_blocks(body) if len(set(body.succ(sbb))) > 1 and
+                          any(body.dominated_by_edge(bb, (sbb, x)) for x in set(body.succ(sbb)))]
+    return _CTL_MEMO[key]
+
+
+_CTL_MEMO = {}
 
 
 # ---------------------------------------------------------------- call graph
